@@ -1,11 +1,14 @@
 (* C16 - source positions match the barrier cut; every split has exactly one reader. Statements only. *)
 From Coq Require Import List NArith.
-From RV Require Import Model.RunnerLoop Model.SplitTracker Model.Splitters Proofs.C16_Runner.
+From RV Require Import Model.RunnerLoop Model.SplitTracker Model.Splitters
+                       Proofs.C16_Runner Proofs.C16_Static Proofs.C16_Kinesis.
 Import ListNotations.
 Open Scope N_scope.
 
+(* ---- positions_match_cut ---- *)
+
 (* The split positions the runner reports for checkpoint [id] cover exactly the records it emitted ahead of
-   barrier [id], for every sequence of assignments, read batches and checkpoints (merged output stream). *)
+   barrier [id]: for every sequence of split assignments, read batches and checkpoints (merged output stream). *)
 Theorem positions_match_cut : forall steps, cut_exact steps.
 Proof. exact positions_match_cut_all. Qed.
 Print Assumptions positions_match_cut.
@@ -15,10 +18,127 @@ Theorem positions_match_cut_per_operator : forall steps, cut_exact_ops steps.
 Proof. exact positions_match_cut_ops. Qed.
 Print Assumptions positions_match_cut_per_operator.
 
-(* non-vacuity: a history with a checkpoint between two reads *)
+(* ---- restore_resumes_positions ---- *)
+
+(* runner: a split assigned with cursor c0 (e.g. the checkpointed position) never emits a record below c0 *)
+Theorem restore_resumes_positions : forall steps s c0, first_assigned steps s = Some c0 ->
+  forall i, In (Rec s i) (out (run steps)) -> c0 <= i.
+Proof. exact resume_from_cursor. Qed.
+Print Assumptions restore_resumes_positions.
+
+(* Kinesis splitter: every assignment carries the checkpointed cursor of its shard, to a runner index < n *)
+Theorem restore_resumes_positions_kinesis : forall n cs shards r i c,
+  In (r, i, c) (assign_out n cs shards) -> c = cursor_of cs i /\ r < n /\ exists s, In s shards /\ sid s = i.
+Proof. exact assignment_carries_cursor. Qed.
+Print Assumptions restore_resumes_positions_kinesis.
+
+(* embedded splitter: the cursor handed out on restore is a checkpointed reader state of that split *)
+Theorem restore_resumes_positions_embedded : forall states split c,
+  embedded_cursor states split = Some c -> In (split, c) states.
+Proof. exact embedded_resume. Qed.
+Print Assumptions restore_resumes_positions_embedded.
+
+(* ---- one_reader_per_split ---- *)
+
+Theorem one_reader_per_split_embedded : forall split_count runners, (1 <= runners)%nat ->
+  length (embedded_assign split_count runners) = runners /\
+  forall i, i < N.of_nat split_count ->
+    exists j, (j < runners)%nat /\ In i (nth j (embedded_assign split_count runners) []) /\
+              forall k, In i (nth k (embedded_assign split_count runners) []) -> k = j.
+Proof. exact one_reader_embedded. Qed.
+Print Assumptions one_reader_per_split_embedded.
+
+Theorem one_reader_per_split_httpapi : forall runners states, (1 <= runners)%nat ->
+  httpapi_assign runners states = [(0, httpapi_cursor states)].
+Proof. exact one_reader_httpapi. Qed.
+Print Assumptions one_reader_per_split_httpapi.
+
+(* ---- one_reader_per_split (Kinesis) and children_after_parents ---- *)
+
+(* Every shard handed out in a valid history after a fresh Start (stream growth by splits/merges, discovery
+   rounds, finished shards in any order): it was not handed out before, it is not finished, and all its parents
+   are finished. *)
+Theorem children_after_parents : forall st pre op post c,
+  wf_stream st ->
+  let s0 := started st (tick_tracker st new_tracker) [] in
+  valid_history s0 (pre ++ op :: post) ->
+  let s := run_ops s0 pre in
+  In c (pending s op) ->
+  ~ In (sid c) (hist s) /\ mem (sid c) (fin (mid s op)) = false /\
+  forall q, In q (parents c) -> mem q (fin (mid s op)) = true.
+Proof. exact history_hands_out_correctly. Qed.
+Print Assumptions children_after_parents.
+
+(* the first assignment of a fresh Start hands out only shards without parents *)
+Theorem children_after_parents_at_start : forall st c, wf_stream st ->
+  In c (available (tick_tracker st new_tracker)) -> parents c = [].
+Proof. exact fresh_start_hands_out_roots. Qed.
+Print Assumptions children_after_parents_at_start.
+
+(* FULL STATEMENT (checkpoint/restore of the splitter at any point) is refuted on the current code, see
+   children_after_parents_restore_refuted. What holds: when the checkpoint is taken in a state where no known
+   shard at or below LastAssignedShardId is unassigned ([no_loss]), the restored splitter satisfies the same
+   invariant again, on any later extension of the stream, so the run after the restore behaves as above.
+   Missing for the full statement: the checkpoint format would have to carry the known, unassigned shards. *)
+Theorem children_after_parents_restore_partial : forall s st' pre op post c,
+  Inv s -> no_loss (trk_ s) ->
+  (exists sh, st' = stream s ++ sh /\ wf_stream st' /\ forall x y, In x sh -> In y (stream s) -> sid y < sid x) ->
+  let s0 := started st' (tick_tracker st' (restored_tracker (trk_ s))) (fin s) in
+  valid_history s0 (pre ++ op :: post) ->
+  let s1 := run_ops s0 pre in
+  In c (pending s1 op) ->
+  ~ In (sid c) (hist s1) /\ mem (sid c) (fin (mid s1 op)) = false /\
+  forall q, In q (parents c) -> mem q (fin (mid s1 op)) = true.
+Proof. exact history_after_restore_hands_out_correctly. Qed.
+Print Assumptions children_after_parents_restore_partial.
+
+Theorem children_after_parents_restore_start_partial : forall s st' c,
+  Inv s -> no_loss (trk_ s) ->
+  (exists sh, st' = stream s ++ sh /\ wf_stream st' /\ forall x y, In x sh -> In y (stream s) -> sid y < sid x) ->
+  In c (available (tick_tracker st' (restored_tracker (trk_ s)))) ->
+  mem (sid c) (fin s) = false /\ forall q, In q (parents c) -> mem q (fin s) = true.
+Proof. exact restore_start_hands_out_correctly. Qed.
+Print Assumptions children_after_parents_restore_start_partial.
+
+(* the invariant is reachable: every valid history from a fresh start satisfies it *)
+Theorem kinesis_invariant : forall st ops, wf_stream st ->
+  valid_history (started st (tick_tracker st new_tracker) []) ops ->
+  Inv (run_ops (started st (tick_tracker st new_tracker) []) ops).
+Proof. intros st ops Hwf Hv. apply inv_history; [apply inv_fresh_start; exact Hwf|exact Hv]. Qed.
+Print Assumptions kinesis_invariant.
+
+(* Refutation of the full statement on the model of the current code (known finding, code 105): a reachable
+   state with a known, unassigned shard below LastAssignedShardId; after restoring from its checkpoint the
+   shards 3 and 4 are never handed out, and their merge child 7 is handed out although they were never read. *)
+Theorem children_after_parents_restore_refuted :
+  ~ no_loss (trk_ d24b_before) /\
+  (mem 1 (fin d24b_after) = true /\ ~ In 3 (hist d24b_after) /\ ~ In 4 (hist d24b_after)) /\
+  (In 7 (hist d24b_after2) /\ mem 3 (fin d24b_after2) = false /\ mem 4 (fin d24b_after2) = false).
+Proof.
+  destruct d24b_lost as [H1 [H2 [H3 [H4 _]]]]. destruct d24b_child_without_parents as [H5 [H6 [H7 _]]].
+  repeat split; assumption.
+Qed.
+Print Assumptions children_after_parents_restore_refuted.
+
+(* ---- non-vacuity ---- *)
+
 Example cut_example :
   let steps := [SAssign [(1, 0); (2, 5)]; SRead [(1, 2); (2, 1)]; SCkpt 7; SRead [(2, 2)]] in
   reports (run steps) = [(7, [(1, 2); (2, 6)])] /\
   before_bar 7 (out (run steps)) = [Rec 1 0; Rec 1 1; Rec 2 5] /\
   after_bar 7 (out (run steps)) = [Rec 2 6; Rec 2 7].
 Proof. vm_compute. repeat split. Qed.
+
+(* a valid history with a withheld child: 1 is split into 2,3; they are handed out only after 1 is finished *)
+Example kinesis_example :
+  let st := [mkShard 1 [] 0 9] in
+  let s0 := started st (tick_tracker st new_tracker) [] in
+  let ops := [OAppend [mkShard 2 [1] 0 4; mkShard 3 [1] 5 9]; OTick; OFinish [1]] in
+  hist s0 = [1] /\ hist (run_ops s0 [OAppend [mkShard 2 [1] 0 4; mkShard 3 [1] 5 9]; OTick]) = [1] /\
+  hist (run_ops s0 ops) = [2; 3; 1].
+Proof. vm_compute. repeat split. Qed.
+
+(* the repaired defects stay recognisable on the models of the old code *)
+Example d28_old_code : map sid (snd (old_tick d24b_stream
+    (fst (old_finish [5] (fst (old_finish [1] (fst (old_finish [2] (fst (old_tick d24b_stream new_tracker)))))))))) = [5].
+Proof. exact d28_old_reassigns_finished. Qed.
